@@ -421,3 +421,20 @@ pub fn decode_icc(stream: &[u8]) -> Result<Vec<u8>> {
     }
     Ok(out)
 }
+
+/// Verification hooks (`--cfg jxl_oxide_verif`): module-private helpers for the harness crate.
+#[cfg(jxl_oxide_verif)]
+pub mod verif {
+    pub fn get_icc_ctx(idx: usize, b1: u8, b2: u8) -> u32 {
+        super::get_icc_ctx(idx, b1, b2)
+    }
+    pub fn predict_header(idx: usize, output_size: u32, header: &[u8]) -> u8 {
+        super::predict_header(idx, output_size, header)
+    }
+    pub fn shuffle2(bytes: &[u8]) -> Vec<u8> {
+        super::shuffle2(bytes)
+    }
+    pub fn shuffle4(bytes: &[u8]) -> Vec<u8> {
+        super::shuffle4(bytes)
+    }
+}
